@@ -2,7 +2,8 @@
 //
 //   probe_xcp <driver> <updater> <mode> <workers> <block_size> [--flag ...] -- <src>... <dest>
 //     flags include: --vanish <size> <path>  (delete <path> when a Size update of exactly <size> arrives)
-//     updater: channel | noop | record        mode: live (drain while copying) | after (drain once copy() returned)
+//     updater: channel | noop | record | flaky:<k> (a recording updater whose send() fails from the k+1st update on)
+//     mode: live (drain while copying) | after (drain once copy() returned) | hangup:<k> (channel: receive k updates, then drop the receiver)
 //
 // Every update the client sees is (a) printed to stdout as one JSON line, in the order seen, and (b) announced
 // by a write() to the (invalid) descriptor 999, which the ptrace supervisor logs with its payload: that places
@@ -40,6 +41,23 @@ impl StatusUpdater for Recorder {
         marker(&m);          // inside the lock: marker order == log order
         g.push(j);
         Ok(())
+    }
+}
+
+// A client-side updater that stops accepting updates (its consumer has gone away): send() answers Err from then on.
+struct Flaky { inner: Arc<Recorder>, left: Mutex<u64> }
+
+impl StatusUpdater for Flaky {
+    fn send(&self, update: StatusUpdate) -> Result<()> {
+        {
+            let mut g = self.left.lock().unwrap();
+            if *g == 0 {
+                marker("F refused");
+                return Err(libxcp::errors::XcpError::CopyError("the client's updater has gone away".to_string()).into());
+            }
+            *g -= 1;
+        }
+        self.inner.send(update)
     }
 }
 
@@ -99,6 +117,7 @@ fn main() {
     let stats: Arc<dyn StatusUpdater> = match updater.as_str() {
         "channel" => { let u = ChannelUpdater::new(&config); rx = Some(u.rx_channel()); Arc::new(u) }
         "noop" => Arc::new(NoopUpdater),
+        x if x.starts_with("flaky:") => Arc::new(Flaky { inner: recorder.clone(), left: Mutex::new(x[6..].parse().expect("flaky:<k>")) }),
         _ => recorder.clone(),
     };
 
@@ -114,6 +133,17 @@ fn main() {
         marker("C returned");
     }
     let mut disconnected = true;
+    if let (Some(k), Some(r)) = (mode.strip_prefix("hangup:"), rx.as_ref()) {
+        // a client that stops listening part-way: k updates are received, then the receiving end is dropped
+        let k: usize = k.parse().expect("hangup:<k>");
+        for u in r.iter().take(k) {
+            let (j, m) = describe(&u);
+            marker(&m.replace("U ", "R "));
+            println!("{}", j);
+        }
+        rx = None;
+        marker("H hung up");
+    }
     if let Some(rx) = rx {
         // documented usage: iterate until the channel closes
         for u in rx.iter() {
